@@ -729,8 +729,9 @@ func run(dir string, seed uint64, tier string) error {
 	usersCase(w, []passwd.UserEntry{{UserName: "", Password: "", UID: 1<<32 - 1, GID: 1 << 31, Info: "", HomeDir: "", Shell: ""}}, "corpus")
 	usersCase(w, nil, "corpus")
 	groupsCase(w, []passwd.GroupEntry{{GroupName: "wheel", Password: "x", GID: 10, Members: []string{"root", "u"}}}, "corpus")
-	groupsCase(w, []passwd.GroupEntry{{GroupName: "nobody", Password: "x", GID: 65534}}, "corpus") // C16-F6
-	groupsCase(w, []passwd.GroupEntry{{GroupName: "g", Password: "", GID: 1<<32 - 1, Members: []string{""}}}, "corpus")
+	groupsCase(w, []passwd.GroupEntry{{GroupName: "nobody", Password: "x", GID: 65534}}, "corpus") // fixed C16-F6: no members come back as no members
+	// a member list [""] (one member, the empty name) is written like the empty list: the format cannot carry it, it is outside the quantifier
+	groupsCase(w, []passwd.GroupEntry{{GroupName: "g", Password: "", GID: 1<<32 - 1, Members: []string{"", "a"}}}, "corpus")
 	for _, t := range []string{"", "\n", "root:x:0:0:root:/root:/bin/sh\n", "root:x:0:0:root:/root:/bin/sh", "a:b:c\n", "g:x:5:\n", "g:x:5:a,b\n", "g:x:-1:a\n", "g:x:4294967296:a\n",
 		"u:x:4294967297:-1:i:h:s\n", "  u:x:1:2:i:h:s  \n", "u:x:1:2:i:h:s\r\n", "u:x:+1:2:i:h:s\n", "u:x:1:2:i:h:s:extra\n", "u:x:9223372036854775808:2:i:h:s\n", "\t\n", "g:x:5:,\n", "g:x::\n"} {
 		pwReadCase(w, t, "corpus")
